@@ -76,7 +76,8 @@ def nodeOf (j : Json) : Except String Node := do
   let kind := kindOf (← (← j.getObjVal? "kind").getStr?)
   let props ← (← arrD j "props").mapM (fun p => do
     pure ({ name := ← strD p "name", readable := ← boolD p "readable" true, writable := ← boolD p "writable" true,
-            constructOnly := ← boolD p "construct_only" false, isBool := ← boolD p "is_bool" false } : PropInfo))
+            constructOnly := ← boolD p "construct_only" false, isBool := ← boolD p "is_bool" false,
+            default := ← optStr p "default" } : PropInfo))
   let vslots ← (← arrD j "vslots").mapM (fun v => do
     pure ({ name := ← strD v "name", ret := ← strD v "ret",
             nparams := natD v "nparams" } : VSlot))
